@@ -27,7 +27,7 @@ PRESENTATION = [
     ["--explicit-padding"],
     ["--rustified-enum", ".*", "--no-derive-copy", "--no-derive-debug"],
     ["--enable-cxx-namespaces", "--default-alias-style=new_type"],
-    ["--no-layout-tests", "--default-enum-style=moduleconsts", "--formatter=prettyplease"],
+    ["--default-enum-style=moduleconsts", "--formatter=prettyplease", "--no-doc-comments"],
     ["--default-non-copy-union-style=manually_drop", "--no-derive-copy"],
 ]
 
